@@ -169,6 +169,7 @@ func RunOne(t *testing.T, cfg RunCfg, out string) {
 		s.frng = NewRng(cfg.Seed, "faults")
 		s.mrng = NewRng(cfg.Seed, "malformed")
 		s.zrng = NewRng(cfg.Seed, "freeze")
+		s.orng = NewRng(cfg.Seed, "oracle-sampling")
 		s.shim.onCallback = func() { s.freeze("callback") }
 		pf, ok := profiles[cfg.Profile]
 		if !ok {
